@@ -667,6 +667,11 @@ func (ex *Explorer) step(st *State, in ssa.Instruction) {
 			if isNilConst(rv) || definitelyNonNil(rv) {
 				st.live["nil:"+p.S] = &Fact{Kind: "nil", X: p.S, Val: isNilConst(rv), Deps: p.Deps, Reads: append(append([]memRead{}, p.Reads...), r), At: in}
 			}
+			// ... and, for values of statically known length, its length
+			if n, ok := staticLen(rv); ok {
+				k := "len(" + p.S + ")"
+				st.live["eq:"+k] = &Fact{Kind: "eq", X: k, Eq: fmt.Sprint(n), Deps: p.Deps, Reads: append(append([]memRead{}, p.Reads...), r), At: in}
+			}
 		}
 		if localRoot != nil {
 			root := localRoot
@@ -972,4 +977,26 @@ func globalNeverNil(p *Program, g *ssa.Global) bool {
 	}
 	globalNeverNilMemo[g] = 1
 	return true
+}
+
+// staticLen: length of a value known from how it was built.
+func staticLen(v ssa.Value) (int64, bool) {
+	switch x := v.(type) {
+	case *ssa.MakeSlice:
+		if c, ok := x.Len.(*ssa.Const); ok && c.Value != nil {
+			return c.Int64(), true
+		}
+	case *ssa.Call:
+		if fn := x.Call.StaticCallee(); fn != nil {
+			switch fn.String() {
+			case "net.IPv4Mask":
+				return 4, true
+			case "net.IPv4":
+				return 16, true
+			}
+		}
+	case *ssa.ChangeType:
+		return staticLen(x.X)
+	}
+	return 0, false
 }
